@@ -22,6 +22,27 @@ class EqNode(Node):
         return 11
 
 
+class LightNode(anytree.LightNodeMixin):
+    """the documented way to use LightNodeMixin: a fully slotted class (no __dict__, no __weakref__)"""
+    __slots__ = ("name", "label")
+
+    def __init__(self, name, parent=None, label=None):
+        self.name = name
+        self.label = label
+        self.parent = parent
+
+
+class FalsyNode(Node):
+    def __bool__(self):
+        return False
+
+    def __len__(self):
+        return 0
+
+
+NODE_CLASSES = {"eq": EqNode, "light": LightNode, "falsy": FalsyNode}
+
+
 def build(tree, names, parent=None, index=None, cls=Node):
     if index is None:
         index = {}
@@ -34,7 +55,7 @@ def build(tree, names, parent=None, index=None, cls=Node):
 
 def impl(case):
     names = {k: v for k, v in case["names"]}
-    root, index = build(case["tree"], names, cls=EqNode if case.get("cls") == "eq" else Node)
+    root, index = build(case["tree"], names, cls=NODE_CLASSES.get(case.get("cls"), Node))
     start = index[case["start"]]
     fo, st = set(case["filter_out"]), set(case["stop"])
     kw = {}
